@@ -76,6 +76,13 @@ _Pp = z3.Const("_k_P", LLInt.sort)
 _ii = z3.Int("_k_i")
 # ASSUMED: the partition's layers are disjoint and cover the base, so "not ignored" = the layer
 L.TH.axiom([_Pp, _ii], IgnoreOf(_Pp, _ii), NotIgnored(IgnoreOf(_Pp, _ii)) == setofK(LLInt.at(_Pp, _ii)), "assumed.ignore.complement")
+# (same assumption: a partition with a single layer has all base keys in it)
+L.TH.axiom(
+    [_Pp, _ii],
+    NotIgnored(LLInt.at(_Pp, _ii)),
+    z3.Implies(z3.And(LLInt.len(_Pp) == 1, _ii == 0), NotIgnored(LLInt.at(_Pp, _ii)) == z3.EmptySet(L.Int)),
+    "assumed.ignore.single.layer",
+)
 
 
 def ExactK(H, val, partset, xi):
@@ -114,6 +121,34 @@ def inv_es(c, selfname="self"):
     ]
 
 
+# --- soft clauses: every clause of every not-ignored key must be a soft clause of the WCNF --------
+from pyvc import iterm as _IT  # noqa: E402
+from pyvc.lib import Clause  # noqa: E402
+
+CSoft = z3.SetSort(Clause)
+KeySoftN, _ksw = _IT.defpred_all("KeySoftN", [CSoft, LClause.sort, L.Int], lambda x: x[2], lambda x, j: z3.IsMember(LClause.at(x[1], j), x[0]), lambda x, j: LClause.at(x[1], j))
+_s1, _s2 = z3.Consts("_ks_1 _ks_2", CSoft)
+_kcl = z3.Const("_ks_cl", LClause.sort)
+_kn = z3.Int("_ks_n")
+# derived (lemmas/zlemmas.py): more soft clauses keep a key covered
+L.TH.axiom([_s1, _s2, _kcl, _kn], [KeySoftN(_s1, _kcl, _kn), KeySoftN(_s2, _kcl, _kn)], z3.Implies(z3.And(KeySoftN(_s1, _kcl, _kn), z3.IsSubset(_s1, _s2)), KeySoftN(_s2, _kcl, _kn)), "KeySoftN.mono")
+_nk = z3.Int("_ni_k")
+_nl = z3.Const("_ni_l", LInt.sort)
+# "base keys outside the ignore list" (half of the definition)
+L.TH.axiom([_nk, _nl], [z3.IsMember(_nk, NotIgnored(_nl))], z3.Implies(z3.IsMember(_nk, NotIgnored(_nl)), z3.Not(L.mem_Int(_nl, _nk))), "def.NotIgnored.outside")
+
+
+def key_soft(soft, cnf):
+    return KeySoftN(soft, cnf, LClause.len(cnf))
+
+
+def soft_covers(c, soft, ignore, selfname="self"):
+    """precondition of MCS: all clauses of every not-ignored key of nf_cnf_dict are soft clauses"""
+    nf = _es(c, "nf_cnf_dict", selfname)
+    k = z3.Int("_sc_k")
+    return L.Forall([k], [L.mem_Int(nf.keys, k)], z3.Implies(z3.And(L.mem_Int(nf.keys, k), z3.IsMember(k, NotIgnored(ignore))), key_soft(soft, z3.Select(nf.val, k))), "MCS.pre.soft.covers")
+
+
 # --- assumed: the MaxSAT enumeration -------------------------------------------------------
 OPT = TObj("Optimizer", {"epistemic_state": TRec(ES_RC2)})
 
@@ -138,6 +173,7 @@ Contract(
     params={"self": OPT, "wcnf": TSolverT, "ignore": TList(TInt), "deadline": DeadlineT},
     defaults={"ignore": lambda ex: VList(LInt.nil, TInt), "deadline": lambda ex: VNone()},
     returns=TList(TList(TInt)),
+    requires=lambda c: [soft_covers(c, c.soft(c.wcnf), c.ignore.t)],
     ensures=_mcs_post,
     raises={"TimeoutError": lambda c: z3.BoolVal(True)},
     trusted=True,
@@ -238,6 +274,22 @@ def _appended(name, cnfvar):
     return lambda s, j, pre: [s.A(getattr(s, name)) == L.inter(pre.A(getattr(pre, name)), DcP(getattr(s, cnfvar), j))]
 
 
+def _soft_layer(s, name, j, pre):
+    """the clauses of the first j keys of the layer are soft clauses; soft clauses are only added"""
+    p = z3.Int("_sl_p_" + name)
+    nf = _es(s, "nf_cnf_dict")
+    soft = s.soft(getattr(s, name))
+    return [
+        z3.IsSubset(pre.soft(getattr(pre, name)), soft),
+        L.Forall([p], [LInt.at(s.part.t, p)], z3.Implies(z3.And(0 <= p, p < j), key_soft(soft, z3.Select(nf.val, LInt.at(s.part.t, p)))), "soft.layer." + name),
+    ]
+
+
+def _soft_key(s, name, j, pre):
+    soft = s.soft(getattr(s, name))
+    return [z3.IsSubset(pre.soft(getattr(pre, name)), soft), KeySoftN(soft, s.softc.t, j)]
+
+
 def _hard_query(name, key):
     return lambda s, j, pre: [s.A(getattr(s, name)) == L.inter(pre.A(getattr(pre, name)), DcP(_es(s, key).t, j))]
 
@@ -285,10 +337,10 @@ Contract(
     axioms=WRECK_AXIOMS,
     abstractions=ABS_W,
     loops={
-        0: LoopSpec("for index in part", lambda s, j, pre: [s.A(s.wcnf) == pre.A(pre.wcnf), s.A(s.hard_constraints) == pre.A(pre.hard_constraints)]),
-        1: LoopSpec("[... for s in softc]", _unchanged("wcnf")),
-        2: LoopSpec("[... for c in *", _hard_query("wcnf", "query_v_cnf")),
-        3: LoopSpec("[... for c in *", _hard_query("wcnf_prime", "query_f_cnf")),
+        0: LoopSpec("for index in part", lambda s, j, pre: [s.A(s.wcnf) == pre.A(pre.wcnf), s.A(s.hard_constraints) == pre.A(pre.hard_constraints)] + _soft_layer(s, "wcnf", j, pre)),
+        1: LoopSpec("[... for s in softc]", lambda s, j, pre: _unchanged("wcnf")(s, j, pre) + _soft_key(s, "wcnf", j, pre)),
+        2: LoopSpec("[... for c in *", lambda s, j, pre: _hard_query("wcnf", "query_v_cnf")(s, j, pre) + [s.soft(s.wcnf) == pre.soft(pre.wcnf)]),
+        3: LoopSpec("[... for c in *", lambda s, j, pre: _hard_query("wcnf_prime", "query_f_cnf")(s, j, pre) + [s.soft(s.wcnf_prime) == pre.soft(pre.wcnf_prime)]),
         4: LoopSpec("for xi_i in xi_i_set & xi_i_prime_set", _w_inv_ties),
         5: LoopSpec("for i in xi_i", _w_inv_fal),
         6: LoopSpec("[... for c in *", _cnf_of("f_cnf_dict", "i")),
@@ -551,9 +603,14 @@ Contract(
     axioms=LRECK_AXIOMS,
     abstractions=ABS_L,
     loops={
-        0: LoopSpec("for index in part", lambda s, j, pre: [s.A(s.hard_constraints_v) == pre.A(pre.hard_constraints_v), s.A(s.hard_constraints_f) == pre.A(pre.hard_constraints_f)]),
-        1: LoopSpec("[... for s in softc]", _unchanged("hard_constraints_v")),
-        2: LoopSpec("[... for s in softc]", _unchanged("hard_constraints_f")),
+        0: LoopSpec(
+            "for index in part",
+            lambda s, j, pre: [s.A(s.hard_constraints_v) == pre.A(pre.hard_constraints_v), s.A(s.hard_constraints_f) == pre.A(pre.hard_constraints_f)]
+            + _soft_layer(s, "hard_constraints_v", j, pre)
+            + _soft_layer(s, "hard_constraints_f", j, pre),
+        ),
+        1: LoopSpec("[... for s in softc]", lambda s, j, pre: _unchanged("hard_constraints_v")(s, j, pre) + _soft_key(s, "hard_constraints_v", j, pre)),
+        2: LoopSpec("[... for s in softc]", lambda s, j, pre: _unchanged("hard_constraints_f")(s, j, pre) + _soft_key(s, "hard_constraints_f", j, pre)),
         3: LoopSpec("for xi_v in *", _l_inv_outer),
         4: LoopSpec("for xi_f in *", _l_inv_inner),
         5: LoopSpec("for i in part", _l_inv_part),
